@@ -865,6 +865,21 @@ fn gen_c20(ctx: &mut Ctx) {
             }
         }
     }
+    // devices whose read_settings keeps answering with the settings they were opened with, and devices whose write_settings
+    // forgets the read timeout: one read-modify-write of the settings followed by the timeout is right on both
+    for flavour in ["s", "w", "sw"] {
+        for (pi, prior) in [("0", "7", "E", "2", "S"), ("7", "8", "N", "1", "N"), ("O31250", "5", "O", "2", "H"), ("7", "5", "N", "1", "H"), ("10", "8", "O", "1", "N")].iter().enumerate() {
+            for fail in ["none", "timeout:V", "write:N", "baud:V"] {
+                if fail != "none" && pi % 2 == 1 {
+                    continue;
+                }
+                for ctor in ["CFG.2.500000000", "BUS", "ODK"] {
+                    let token = format!("{}~{}", fail, flavour);
+                    pt_case(ctx, &format!("PT {} {} {} {} {} {} {}", prior.0, prior.1, prior.2, prior.3, prior.4, token, ctor), fail, ctor);
+                }
+            }
+        }
+    }
     ctx.notes.insert("exhaustive".into(), "full product of 14 bauds x 4 char sizes x 3 parities x 2 stop bits x 3 flow controls x (no failure + 4 failure points) x 3 constructors; 9 error kinds per failure point (rotating over the settings in the quick tier, all in thorough); 16 timeouts from 0 ns to Duration::MAX".into());
 }
 
